@@ -122,3 +122,22 @@ pub fn poll_transmit_native(offset: u64, unsent: u64, max_len: usize, has_range:
         poll_transmit_new(offset, unsent, offset as usize, max_len)
     }
 }
+
+/// Native replay body for the E2 queries `e2_sendbuf_unacked_subtracts_acked` / `e2_sendbuf_unacked_range_term`
+/// (C05), on a real `SendBuffer`: 100 bytes written and sent, bytes 40..70 and 80..90 acknowledged while 0..40 is
+/// still outstanding.  60 bytes are unacknowledged; once the hole is acknowledged too, 20.
+pub fn unacked_native(_x: u8) -> u32 {
+    let mut sb = SendBuffer::new();
+    sb.write(Bytes::from(vec![7u8; 100]));
+    while sb.has_unsent_data() {
+        let _ = sb.poll_transmit(64);
+    }
+    assert!(sb.unacked() == 100);
+    sb.ack(40..70);
+    assert!(sb.unacked() == 70, "30 of 100 bytes were acknowledged behind a hole, {} reported as unacknowledged", sb.unacked());
+    sb.ack(80..90);
+    assert!(sb.unacked() == 60, "40 of 100 bytes were acknowledged behind a hole, {} reported as unacknowledged", sb.unacked());
+    sb.ack(0..40);
+    assert!(sb.unacked() == 20, "{} reported as unacknowledged, 20 are", sb.unacked());
+    1
+}
